@@ -24,7 +24,7 @@ is seen. Metadata::from_bytes returns Some only when validate() holds; a journal
 and complement match. NOT decided: panic freedom (129 index/slice and 182 unchecked arithmetic sites on attacker-controlled
 lengths need relational reasoning) and termination of the scan.
 """
-DECIDED = ["(a) no device write before the file is recognised / size-validated; rejected opens write nothing",
+DECIDED = ['the size gate accepts exactly (reserved, MAX_DEVICE_SIZE] in whole FEOX_BLOCK_SIZE blocks, on all three open paths', "(a) no device write before the file is recognised / size-validated; rejected opens write nothing",
            "metadata / journal slots accepted only after checksum validation",
            "(b, partial) panic sites (bounds, slice ranges, overflow, unwrap of slice conversions, copy lengths, allocation sizes) in the device-byte parsers discharged",
            "every extent recovery queues for retirement lies inside the device",
@@ -392,7 +392,55 @@ def check_bounds(ctx):
     c17_bounds.check(ctx, "C17.bounds")
 
 
+def check_size(ctx):
+    """the one size gate of all open paths accepts exactly the lengths the layout can describe: larger than the reserved
+    metadata / journal area (FEOX_DATA_START_BLOCK blocks), at most MAX_DEVICE_SIZE, a whole number of FEOX_BLOCK_SIZE blocks.
+    Every later stage floors `size / FEOX_BLOCK_SIZE`; a length accepted in another unit (512-byte sectors) makes a foreign or torn
+    file look like a device: an all-zero one gets a signature written into it, a torn image has its metadata rewritten."""
+    inst = "C17.size"
+    b = ctx.fn("persistence::validate_device_size", inst)
+    if b is None:
+        return
+    from rules.common import pin_comparisons
+
+    def size(e):
+        return e.k == "arg" and e.extra[0] == 1
+
+    def reserved(e):
+        return e.has_const(name="FEOX_DATA_START_BLOCK") and e.has_const(name="FEOX_BLOCK_SIZE") and \
+            sum(1 for x in e.walk() if x.k == "bin") == 1 and any(x.k == "bin" and x.extra.startswith("Mul") for x in e.walk())
+
+    def maxdev(e):
+        return e.k == "const" and e.has_const(name="MAX_DEVICE_SIZE")
+    pin_comparisons(ctx, inst, b, [
+        ("Lt", reserved, size, "a device is larger than the reserved area: reject `size <= FEOX_DATA_START_BLOCK * FEOX_BLOCK_SIZE`"),
+        ("Lt", maxdev, size, "a device is at most MAX_DEVICE_SIZE: reject `size > MAX_DEVICE_SIZE`"),
+    ])
+    mo = ctx.sites(b, R.call("u64::is_multiple_of", "is_multiple_of"), inst, exact=1)
+    oks = A.ok_nodes(b)
+    ctx.check(len(oks) >= 1, inst, "anchor", b.path, "Ok return present", None)
+    for m in mo:
+        a0, a1 = R.arg_expr(b, b.nodes[m], 0), R.arg_expr(b, b.nodes[m], 1)
+        while a1.k == "cast":
+            a1 = a1.a[0]
+        ctx.check(size(a0) and a1.k == "const" and a1.has_const(name="FEOX_BLOCK_SIZE"), inst, "PIN", b.path,
+                  "a device is a whole number of FEOX_BLOCK_SIZE blocks (the unit every later stage divides by)", b.where(m), {"unit": a1.show()[:60]})
+        R.guard(ctx, inst, b, oks, R.guard_edges_for_call(b, [m], "true"), "Ok only for a block-aligned size")
+    e1 = A.pred_edges(b, lambda e: e.k == "bin" and e.extra == "Lt" and reserved(e.a[0]) and size(e.a[1]), "true")
+    e2 = A.pred_edges(b, lambda e: e.k == "bin" and e.extra == "Lt" and maxdev(e.a[0]) and size(e.a[1]), "false")
+    if e1:
+        R.guard(ctx, inst, b, oks, e1, "Ok only for a size beyond the reserved area")
+    if e2:
+        R.guard(ctx, inst, b, oks, e2, "Ok only for a size within MAX_DEVICE_SIZE")
+    # every open path goes through this gate
+    sites = ctx.prog.call_sites("persistence::validate_device_size")
+    owners = {R.owner_fn(ctx.prog, cb).rsplit("::", 1)[-1] for cb, cn in sites}
+    ctx.check({"open_device", "open_device_read_only", "initialize_fresh_device"} <= owners, inst, "CALLERS", "-",
+              "the three open paths validate the size (found %s)" % sorted(owners), None)
+
+
 def check(ctx):
+    check_size(ctx)
     check_nowrite(ctx)
     check_drop_nowrite(ctx)
     check_zero(ctx)
